@@ -66,7 +66,7 @@ TRUSTED_BASE = [
 ]
 ASSUMPTIONS = [
     "getsockname() of an accepted socket names a local address (so the pf failure fallback trips the self-address guard)",
-    "ipfw / windivert recovery paths and scoped IPv6 addresses (%iface) are not modelled",
+    "ipfw / windivert recovery paths and scoped IPv6 addresses (%iface) are not modelled (ipfw.recv_udp is run on decoder-level control-message lists under an implementation-side oracle: level AND type identify the address item)",
     "PEP 515 underscores accepted by int() are not modelled (never produced by the printers)",
     "the helper's line reader is readline(limit) with limit regenerated from /repo (Gen/Consts.fw_readline_limit); the pf theorems "
     "hold for no limit or any limit >= 128 (c05_pf_reader_of_code re-checks this against the current code on every run)",
